@@ -320,7 +320,7 @@ def gen(seed, idx, tier, ctx):
                           'flags': list(rng.choice(INVALID_FLAGS)),
                           'enc': enc})
     return {'check': CHECK, 'seed': seed, 'idx': idx, 'text': text,
-            'enc': enc, 'faulty': faulty, 'items': items, 'timeout': 90.0}
+            'enc': enc, 'faulty': faulty, 'items': items, 'timeout': 300.0}
 
 
 def _ref_key_for(item, text):
